@@ -4,6 +4,9 @@
 set -u
 TIER=$1; shift
 V=$(cd "$(dirname "$0")/.." && pwd); cd "$V" || exit 2
+# under `vp run --with-repo` use the snapshot of /repo's HEAD, so that experiments in /repo's working tree do not leak in
+[ -n "${VP_RUN_REPO:-}" ] && export VERIF_REPO="$VP_RUN_REPO"
+echo "soak: repo=${VERIF_REPO:-/repo} tier=$TIER seeds=$*"
 if [ ! -x lean/.lake/build/bin/oracle ]; then ./check --setup > /tmp/soak-setup.$$ 2>&1 || { tail -20 /tmp/soak-setup.$$; exit 2; }; fi
 bad=0
 for seed in "$@"; do
